@@ -193,6 +193,11 @@ func (s Script) Run(callTimeout time.Duration) *Outcome {
 			if !call(fmt.Sprintf("op %d Write(%d bytes)", i, len(b)), func() { n, err = w.Write(b) }) {
 				return finish()
 			}
+			// the slice belongs to the caller again (io.Writer: "Write must not
+			// modify the slice data ... Implementations must not retain p")
+			for k := range b {
+				b[k] ^= 0xa5
+			}
 			chk(fmt.Sprintf("op %d Write(%d bytes)", i, len(b)), err)
 			if err == nil && n != len(b) {
 				bad("op %d Write(%d bytes) returned n=%d", i, len(b), n)
